@@ -65,54 +65,40 @@ impl LKHSearch {
             return new_solution;
         }
 
-        // get all routes from original solution indexed by actor
+        // NOTE: routes are optimized one by one, so assignment of the original solution has to be kept as it is: a repaired
+        // route is used only when it serves exactly the same jobs as the original one. Anything else (jobs dropped by the
+        // repair, routes created by the repair from locks) would mix two different solutions, which breaks properties
+        // defined across routes (e.g. job groups) or leaves jobs listed twice or not at all.
         let orig_routes: HashMap<_, _> =
-            orig_solution.solution.routes.iter().map(|route| (&route.route().actor, route)).collect();
+            orig_solution.solution.routes.iter().map(|route_ctx| (route_ctx.route().actor.clone(), route_ctx)).collect();
 
-        // get set of actors already present in new solution
-        let existing_actors: HashSet<_> =
-            new_solution.solution.routes.iter().map(|route| route.route().actor.clone()).collect();
-
-        // add any missing routes from original solution
-        orig_routes.iter().filter(|&(&actor, _)| !existing_actors.contains(actor)).for_each(|(_, &orig_route_ctx)| {
-            let route_ctx = orig_route_ctx.deep_copy();
-            new_solution.solution.registry.use_route(&route_ctx);
-            new_solution.solution.routes.push(route_ctx);
+        // NOTE: keep_routes returns actors of the removed routes to the registry
+        new_solution.solution.keep_routes(&|route_ctx| {
+            orig_routes.get(&route_ctx.route().actor).is_some_and(|orig_route_ctx| {
+                let orig_jobs = orig_route_ctx.route().tour.jobs().collect::<HashSet<_>>();
+                route_ctx.route().tour.job_count() == orig_jobs.len()
+                    && route_ctx.route().tour.jobs().all(|job| orig_jobs.contains(job))
+            })
         });
 
-        // ensure routes have at least as many jobs as in original solution
-        new_solution
+        // add original routes instead of the rejected or missing ones
+        let kept_actors: HashSet<_> =
+            new_solution.solution.routes.iter().map(|route_ctx| route_ctx.route().actor.clone()).collect();
+        orig_solution
             .solution
             .routes
-            .iter_mut()
-            .filter_map(|route_ctx| {
-                orig_routes.get(&route_ctx.route().actor).map(|orig_route_ctx| (route_ctx, orig_route_ctx))
-            })
-            .filter(|(route_ctx, orig_route_ctx)| {
-                orig_route_ctx.route().tour.job_count() > route_ctx.route().tour.job_count()
-            })
-            .for_each(|(route_ctx, orig_route_ctx)| {
-                *route_ctx = orig_route_ctx.deep_copy();
+            .iter()
+            .filter(|orig_route_ctx| !kept_actors.contains(&orig_route_ctx.route().actor))
+            .for_each(|orig_route_ctx| {
+                let route_ctx = orig_route_ctx.deep_copy();
+                new_solution.solution.registry.use_route(&route_ctx);
+                new_solution.solution.routes.push(route_ctx);
             });
 
-        // restore original unassigned jobs
-        let repaired_unassigned =
-            std::mem::replace(&mut new_solution.solution.unassigned, orig_solution.solution.unassigned.clone());
-
-        // NOTE: jobs (e.g. optional breaks) which were dropped by the repair are kept as required/ignored:
-        // when an original route is restored, they are assigned again and must not stay pending
-        let assigned: HashSet<_> =
-            new_solution.solution.routes.iter().flat_map(|route_ctx| route_ctx.route().tour.jobs().cloned()).collect();
-        new_solution.solution.required.retain(|job| !assigned.contains(job));
-        new_solution.solution.ignored.retain(|job| !assigned.contains(job));
-        // NOTE: the repair starts from the routes defined by locks, so it can serve a job which was unassigned originally
-        new_solution.solution.unassigned.retain(|job, _| !assigned.contains(job));
-
-        // NOTE: jobs which the repair left without a tour (e.g. pending reloads) and which are not served by
-        // a restored route have to stay in the solution
-        repaired_unassigned.into_iter().filter(|(job, _)| !assigned.contains(job)).for_each(|(job, info)| {
-            new_solution.solution.unassigned.entry(job).or_insert(info);
-        });
+        // restore the rest of the original solution
+        new_solution.solution.required = orig_solution.solution.required.clone();
+        new_solution.solution.ignored = orig_solution.solution.ignored.clone();
+        new_solution.solution.unassigned = orig_solution.solution.unassigned.clone();
 
         // recalculate solution state if we do
         new_solution.restore();
